@@ -773,7 +773,12 @@ class OptimizationProblem(EvaluationProblem):
                     attr_name = "_OptimizationProblem__is_linear"
                     val = val == "linear"
 
-                setattr(problem, attr_name, val)
+                if attr_name == "ineq_tolerance":
+                    problem.tolerances.inequality = val
+                elif attr_name == "eq_tolerance":
+                    problem.tolerances.equality = val
+                else:
+                    setattr(problem, attr_name, val)
 
             for name, functions in zip(
                 [problem._CONSTRAINTS_GROUP, problem._OBSERVABLES_GROUP],
